@@ -199,8 +199,17 @@ func (d *Decoder) LoadParityData() error {
 	// TODO: Support searching for volume data without relying on
 	// filenames.
 
-	// TODO: Count only files saved in volume set.
-	fileCount := d.indexVolume.header.FileCount
+	var fileCount uint64
+	for _, entry := range d.indexVolume.entries {
+		if entry.header.Status.savedInVolumeSet() {
+			fileCount++
+		}
+	}
+	if fileCount >= 256 {
+		// There can be at most 256 data files and parity
+		// volumes in total.
+		return errors.New("too many files saved in volume set")
+	}
 	maxParityVolumeCount := 256 - fileCount
 	// TODO: Support more than 99 parity volumes.
 	if maxParityVolumeCount > 99 {
